@@ -30,8 +30,11 @@
            lo_cache_key_without_ctx     engine 4 (ListObjects with enable-list-objects-optimizations): the list
                                         differs and an earlier optimised ListObjects of the same user ran in another
                                         world (C04 finding: candidate checks are cached with invariant key 0);
+           cancelled_reducer_result_cached   default engine, ONE cached run of the history only: wrong cache
+                                        entries, all of them sub-problems below a request root, and the answers
+                                        that follow from them (a cancelled sub-problem stored with an invented result);
            depth_error_masked_by_cache  default engine: uncached = resolution depth exceeded, cached
-                                        = the answer the model gives without a depth limit;
+                                        = an answer (or error) the model gives without a depth limit;
            excl_sub_cycle / cond_err_swallowed   the C01 findings (V1 trigger flags), as in c01_oracle.ml. *)
 
 let aout_s = function AT -> "T" | AFn -> "F" | AFc -> "Fcycle" | AEc -> "Econd" | AEd -> "Edepth" | AEo -> "Eother" | AFuel -> "FUEL"
@@ -162,7 +165,7 @@ let f _id vs =
       else if in_model && tr.tr_swallow then known ("cond_err_swallowed " ^ txt)
       else prop txt in
     (* one compared answer *)
-    let compare_answer ?(flagless=false) eng si ii (it : item) a (us : int list) (cc : int) run =
+    let compare_answer ?(flagless=false) ?(excused=false) eng si ii (it : item) a (us : int list) (cc : int) run =
       (* BatchCheck outcomes carry no CycleDetected flag: `denied` stands for both *)
       let mem_cls x set = List.mem x set || (flagless && x = AFn && List.mem AFc set) in
       let p = (it.w, it.s) in
@@ -177,6 +180,9 @@ let f _id vs =
         let trall = { tr_excl_sub_cycle = tr1.tr_excl_sub_cycle || trc.tr_excl_sub_cycle || tr2.tr_excl_sub_cycle;
                       tr_swallow = tr1.tr_swallow || trc.tr_swallow || tr2.tr_swallow } in
         let in_cached_model = (match cls_aout cc with Some x -> mem_cls x setc || mem_cls x set2 | None -> false) in
+        (* the uncached engine itself may give the cached answer (which of several errors is reported, which
+           branch of an intersection denies first: Check/V1.v returns the SET of possible outcomes) *)
+        let same = same || (eng = 0 && List.exists (fun x -> api_of_aout x = api cc) set1) in
         if not same then begin
           let txt = Printf.sprintf "%s: uncached=%s cached(run %d)=%s" wh (String.concat "/" (List.map cls_s us)) run (cls_s cc) in
           if eng = 1 || eng = 3 then begin
@@ -189,10 +195,11 @@ let f _id vs =
             else prop txt
           end else begin
             let nl = v1_nolimit p a in
-            if List.mem 4 (List.map api us) && (cc = 0 || cc = 1 || cc = 2)
+            if List.mem 4 (List.map api us) && cc <> 4
                && List.exists (fun x -> api_of_aout x = api cc) nl
                && (eng <> 0 || in_cached_model)
             then known ("depth_error_masked_by_cache " ^ txt)
+            else if excused then known ("cancelled_reducer_result_cached " ^ txt)
             else by_trigger trall (eng <> 0 || in_cached_model) txt
           end
         end;
@@ -206,8 +213,10 @@ let f _id vs =
             | None -> if u <> 7 then diff (Printf.sprintf "%s: uncached impl=%s (unexpected class)" wh (cls_s u))) us;
           (match cls_aout cc with
            | Some _ -> if not in_cached_model then
-               diff (Printf.sprintf "%s: cached impl=%s outside Check/QueryCache history{%s} all-valid{%s}; uncached model {%s}"
-                       wh (cls_s cc) (set_s setc) (set_s set2) (set_s set1))
+               (if excused then known else diff)
+                 (Printf.sprintf "%s%s: cached impl=%s outside Check/QueryCache history{%s} all-valid{%s}; uncached model {%s}"
+                    (if excused then "cancelled_reducer_result_cached " else "")
+                    wh (cls_s cc) (set_s setc) (set_s set2) (set_s set1))
            | None -> if cc <> 7 then diff (Printf.sprintf "%s: cached impl=%s (unexpected class)" wh (cls_s cc)));
           (* reference semantics *)
           (match sem_wrong p a u0 set1 with
@@ -231,6 +240,49 @@ let f _id vs =
                             List.map (fun x -> match as_list x with [t; i] -> (as_int t, as_int i) | _ -> failwith "obj") (as_list objs))
           | _ -> failwith "obs") (as_list rv) in
         let uruns = List.map dec_run (as_list uruns) and cruns = List.map dec_run (as_list cruns) in
+        (* ---- cache read-backs (engine 0): every entry must be the path-independent value of its key ---- *)
+        let roots p =
+          List.concat_map (function
+            | SCheck it -> if (it.w, it.s) = p then [(it.o, it.rel)] else []
+            | SBatch its -> List.concat_map (fun (it : item) -> if (it.w, it.s) = p then [(it.o, it.rel)] else []) its
+            | SList it -> if (it.w, it.s) = p then atoms_of_list it else []) steps in
+        let below_a_root p a =
+          let (m, _, store, _, _) = penv p in
+          List.exists (fun root -> root <> a && List.mem a (reach m store gfuel root)) (roots p) in
+        let wrong_entries = List.map (fun dv ->
+          List.filter_map (fun e ->
+            match as_list e with
+            | [w; s; ot; oi; r; allowed; cycle] ->
+              let p = (as_int w, as_int s) in
+              let a = (mk_obj (as_int ot) (as_int oi), n_of_int (as_int r)) in
+              let allowed = as_bool allowed in
+              if as_bool cycle then prop (Printf.sprintf "cache entry %s carries CycleDetected" (where p a));
+              (match clook (cstar p) a with
+               | Some b -> if b <> allowed then
+                   Some (below_a_root p a, Printf.sprintf "cache entry %s = %b, path-independent value %b" (where p a) allowed b)
+                 else None
+               | None ->
+                 Some (below_a_root p a,
+                       Printf.sprintf "cache entry %s = %b but the sub-problem has no path-independent value (uncached model {%s})"
+                         (where p a) allowed (set_s (fst (v1 p a)))))
+            | _ -> failwith "dump entry") (as_list dv)) (as_list dumps) in
+        (* A sub-problem that a short circuit cancels can be stored with an invented result (finding
+           cancelled_reducer_result_cached: the union / intersection reducers return denied / allowed
+           without error when their context is cancelled in a narrow window).  It is a race: it shows in
+           one run and not in the others.  A run is excused when all its wrong entries are sub-problems
+           BELOW a request root of their partition (a top-level request is never cancelled), there are at
+           least three cached runs and every other cached run of the same history is clean. *)
+        let nruns = List.length wrong_entries in
+        let excused_run r =
+          eng = 0 && nruns >= 3 &&
+          (match List.nth_opt wrong_entries r with
+           | Some (_ :: _ as l) -> List.for_all fst l
+           | _ -> false) &&
+          List.for_all (fun x -> x) (List.mapi (fun r' l -> r' = r || l = []) wrong_entries) in
+        List.iteri (fun r l ->
+          List.iter (fun (_, txt) ->
+            if excused_run r then known ("cancelled_reducer_result_cached " ^ txt ^ Printf.sprintf " (run %d only)" r)
+            else diff txt) l) wrong_entries;
         List.iteri (fun run crun ->
           List.iteri (fun si st ->
             let (ccls, cobjs) = List.nth crun si in
@@ -238,11 +290,11 @@ let f _id vs =
             match st with
             | SCheck it ->
               let cc = List.hd ccls in
-              if cc <> 99 then compare_answer eng si 0 it (it.o, it.rel) (List.map (fun (c, _) -> List.hd c) us) cc run
+              if cc <> 99 then compare_answer ~excused:(excused_run run) eng si 0 it (it.o, it.rel) (List.map (fun (c, _) -> List.hd c) us) cc run
             | SBatch its ->
               List.iteri (fun ii it ->
                 let cc = List.nth ccls ii in
-                if cc <> 99 then compare_answer ~flagless:true eng si ii it (it.o, it.rel) (List.map (fun (c, _) -> List.nth c ii) us) cc run) its
+                if cc <> 99 then compare_answer ~flagless:true ~excused:(excused_run run) eng si ii it (it.o, it.rel) (List.map (fun (c, _) -> List.nth c ii) us) cc run) its
             | SList it ->
               let cc = List.hd ccls in
               if cc <> 99 then begin
@@ -280,6 +332,7 @@ let f _id vs =
                           | _ -> ()) steps;
                         if !other_world then known ("lo_cache_key_without_ctx " ^ txt) else prop txt
                       end
+                      else if excused_run run then known ("cancelled_reducer_result_cached " ^ txt)
                       else begin
                         let (_, tr1) = v1 p a in
                         let (_, tr2) = a2 p a in
@@ -288,23 +341,7 @@ let f _id vs =
                       end) sym
                   end
                 end
-              end) steps) cruns;
-        (* cache read-backs *)
-        List.iter (fun dv ->
-          List.iter (fun e ->
-            match as_list e with
-            | [w; s; ot; oi; r; allowed; cycle] ->
-              let p = (as_int w, as_int s) in
-              let a = (mk_obj (as_int ot) (as_int oi), n_of_int (as_int r)) in
-              let allowed = as_bool allowed in
-              if as_bool cycle then prop (Printf.sprintf "cache entry %s carries CycleDetected" (where p a));
-              (match clook (cstar p) a with
-               | Some b -> if b <> allowed then
-                   diff (Printf.sprintf "cache entry %s = %b, path-independent value %b" (where p a) allowed b)
-               | None ->
-                 diff (Printf.sprintf "cache entry %s = %b but the sub-problem has no path-independent value (uncached model {%s})"
-                         (where p a) allowed (set_s (fst (v1 p a)))))
-            | _ -> failwith "dump entry") (as_list dv)) (as_list dumps)
+              end) steps) cruns
       | _ -> failwith "engine") (as_list engines);
     let uniq l = List.sort_uniq compare l in
     (match uniq !props, uniq !diffs, uniq !knowns with
